@@ -64,6 +64,9 @@ pub enum Op {
     /// into the slot (`via_copy`, so that the last slice ends at the arena's write
     /// position) or by a dropped read_n allocation.
     FillChunk { slot: u8, off: u32, leave: u16, via_copy: bool },
+    /// `push_anchor(Default::default())`: an anchor that holds nothing (callers that push borrowed
+    /// data of their own do this); must change nothing observable.
+    PushEmptyAnchor { slot: u8 },
     TakeArenaBack { slot: u8 },
     SwapArenas { a: u8, b: u8 },
     NewFromArena { slot: u8 },
@@ -474,6 +477,10 @@ impl World {
                     }
                     self.stats.chunk_fills += 1;
                 }
+            }
+            Op::PushEmptyAnchor { slot } => {
+                let si = self.pick_slot(*slot);
+                self.slots[si].io.push_anchor(Default::default());
             }
             Op::TakeArenaBack { slot } => {
                 let si = self.pick_slot(*slot);
@@ -1115,6 +1122,7 @@ fn op_name(op: &Op) -> &'static str {
         Op::Flush { .. } => "flush_cache",
         Op::Ensure { .. } => "ensure_capacity",
         Op::FillChunk { .. } => "fill_chunk",
+        Op::PushEmptyAnchor { .. } => "push_anchor(empty)",
         Op::TakeArenaBack { .. } => "take_arena",
         Op::SwapArenas { .. } => "swap_arena",
         Op::NewFromArena { .. } => "new_from_arena",
@@ -1257,6 +1265,7 @@ pub fn op(mix: Mix) -> BoxedStrategy<Op> {
         2 => (slot(), size()).prop_map(|(slot, len)| Op::Ensure { slot, len }),
         3 => (slot(), any::<u32>(), prop_oneof![0u16..4, 60u16..70, 0u16..300, 0u16..4200], any::<bool>()).prop_map(|(slot, off, leave, via_copy)| Op::FillChunk { slot, off, leave, via_copy }),
         1 => slot().prop_map(|slot| Op::TakeArenaBack { slot }),
+        2 => slot().prop_map(|slot| Op::PushEmptyAnchor { slot }),
         1 => (slot(), slot()).prop_map(|(a, b)| Op::SwapArenas { a, b }),
         1 => slot().prop_map(|slot| Op::NewFromArena { slot }),
     ];
